@@ -561,8 +561,38 @@ func (self *Analyzer) TypeCheck(got ast.Type, expected ast.Type, options TypeChe
 				}
 			}
 		case ast.VarArgsFunctionTypeParamKindIdentifierKind:
-			// TODO: ...
-			panic("TODO: implement or remove this")
+			// two variadic functions agree if their leading parameter types and the type of the remaining arguments agree
+			expectedFnParams := expectedFn.Params.(ast.VarArgsFunctionTypeParamKindIdentifier)
+			gotFnParams := gotFn.Params.(ast.VarArgsFunctionTypeParamKindIdentifier)
+
+			if len(expectedFnParams.ParamTypes) != len(gotFnParams.ParamTypes) {
+				return newCompatibilityErr(
+					diagnostic.Diagnostic{
+						Level:   diagnostic.DiagnosticLevelError,
+						Message: fmt.Sprintf("Expected %d leading parameter(s), got %d", len(expectedFnParams.ParamTypes), len(gotFnParams.ParamTypes)),
+						Notes:   []string{},
+						Span:    gotFn.ParamsSpan,
+					},
+					&diagnostic.Diagnostic{
+						Level:   diagnostic.DiagnosticLevelHint,
+						Message: fmt.Sprintf("Amount of %d leading parameter(s) expected due to this", len(expectedFnParams.ParamTypes)),
+						Notes:   []string{},
+						Span:    expectedFn.ParamsSpan,
+					},
+				)
+			}
+
+			for idx, expectedParamType := range expectedFnParams.ParamTypes {
+				if err := self.TypeCheck(gotFnParams.ParamTypes[idx], expectedParamType, options); err != nil {
+					return err
+				}
+			}
+
+			if expectedFnParams.RemainingType != nil && gotFnParams.RemainingType != nil {
+				if err := self.TypeCheck(gotFnParams.RemainingType, expectedFnParams.RemainingType, options); err != nil {
+					return err
+				}
+			}
 		default:
 			panic("A new function parameter type kind was introduced without updating this code")
 		}
